@@ -400,6 +400,10 @@ def configs(tier):
            (region_matches_power, dict(bundle='middle')), (region_matches_power, dict(bundle='bottom')),
            (region_matches_power, dict(bundle='top')), (region_matches_power, dict(bundle='top', last_step=True)),
            (region_matches_power, dict(bundle='whole'))]
+    # the sweep identity needs a plane on every power-cell and bundle bound: the mesh loop never skips a boundary,
+    # also when two of them lie within one step (the contracts C05 proves on the real Reactor._setup_zpts / _check_dz)
+    from . import c05
+    out += [(c05.loop_body, dict(n_bounds=3, req='grid')), (c05.loop_prefix, dict())]
     if tier == 'thorough':
         out += [(integrate, dict(n_reg=3, n_terms=4)),
                 (sweep_total, dict(cells=[2, 2, 1], n_terms=2, bundle=(1, 4))),
